@@ -110,49 +110,9 @@ mod verif_codecs {
         kani::cover!(x0 == 255 && y0 == 0);
         kani::cover!(y0 == i16::MIN);
     }
-    //@defaults unit=U09.4 props=C09,C04 tier=thorough level=bounded bound="one contour of 2 points, every coordinate pair whose deltas fit i16, on-curve flags symbolic" timeout=2400
-    //@harness fns=SimpleGlyph::write_into,SimpleGlyph::compute_point_deltas,flag_and_delta,RepeatableFlag::iter_from_flags,read_fonts::SimpleGlyph::points,read_fonts::SimpleGlyph::read_points_fast
-    #[kani::proof]
-    #[kani::unwind(8)]
-    #[kani::stub(std::hash::RandomState::new, fixed_random_state)]
-    #[kani::stub(TableWriter::write_slice, write_slice_sink)]
-    #[kani::stub(TableWriter::pad_to_2byte_aligned, pad_sink)]
-    fn simple_glyph_points_roundtrip_2() {
-        use crate::tables::glyf::{Bbox, Contour, SimpleGlyph};
-        use read_fonts::tables::glyf::CurvePoint;
-        let (x0, y0, x1, y1): (i16, i16, i16, i16) = (kani::any(), kani::any(), kani::any(), kani::any());
-        // deltas must be representable (the writer's documented domain)
-        kani::assume((x1 as i32 - x0 as i32).abs() <= 32767 && (y1 as i32 - y0 as i32).abs() <= 32767);
-        let (on0, on1): (bool, bool) = (kani::any(), kani::any());
-        let mut g = SimpleGlyph {
-            bbox: Bbox::default(),
-            contours: vec![Contour::from(vec![CurvePoint::new(x0, y0, on0), CurvePoint::new(x1, y1, on1)])],
-            instructions: vec![],
-        };
-        g.recompute_bounding_box();
-        reset_sink();
-        let mut w = TableWriter::default();
-        g.write_into(&mut w);
-        let (bytes, n) = sink_bytes();
-        assert!(n % 2 == 0);
-        let r = read_fonts::tables::glyf::SimpleGlyph::read(FontData::new(&bytes[..n]));
-        assert!(r.is_ok());
-        let r = r.unwrap();
-        assert!(r.num_points() == 2 && r.end_pts_of_contours().len() == 1 && r.end_pts_of_contours()[0].get() == 1);
-        assert!(r.x_min() == x0.min(x1) && r.x_max() == x0.max(x1) && r.y_min() == y0.min(y1) && r.y_max() == y0.max(y1));
-        let mut it = r.points();
-        assert!(it.next() == Some(CurvePoint::new(x0, y0, on0)));
-        assert!(it.next() == Some(CurvePoint::new(x1, y1, on1)));
-        assert!(it.next().is_none());
-        // the fast path agrees
-        let mut pts = [read_fonts::types::Point::<i32>::default(); 2];
-        let mut fl = [read_fonts::tables::glyf::PointFlags::default(); 2];
-        assert!(r.read_points_fast(&mut pts, &mut fl).is_ok());
-        assert!(pts[0].x == x0 as i32 && pts[0].y == y0 as i32 && pts[1].x == x1 as i32 && pts[1].y == y1 as i32);
-        assert!(fl[0].is_on_curve() == on0 && fl[1].is_on_curve() == on1);
-        kani::cover!(x1 - x0 == 256 && y1 == y0);
-        kani::cover!(x0 == x1 && y0 == y1 && on0 == on1);
-    }
+    // NOTE: the two-point SimpleGlyph writer->reader harness (second point's deltas over every i16 pair) leaves several hundred checks
+    // undetermined after 600-1200 s / 15 GB in this session and is kept, unclaimed, in attic/c09_simple_glyph_two_points.proofs.rs.txt.
+    //@defaults unit=U09.3 props=C09 tier=quick level=bounded bound="3 offsets, each any u32" timeout=900
     //@harness fns=Loca::new,LocaFormat::new,Loca::write_into,read_fonts::Loca::get_raw unit=U09.3 tier=quick timeout=900 bound="3 offsets, each any u32"
     #[kani::proof]
     #[kani::unwind(8)]
